@@ -37,7 +37,12 @@ pub fn c10(tier: Tier) -> ! {
     let mut run = Run::new("C10", tier, "exploration");
     let groups = GROUP_NAMES;
     let kmax = tier.pick(3, 5);
-    let settings: Vec<Vec<&str>> = tier.pick(vec![vec!["--steps", "60", "--inner-steps", "20"]], vec![vec!["--steps", "60", "--inner-steps", "20"], vec!["--steps", "150", "--inner-steps", "50", "--kt-finish", "0.001", "--max-step-size", "0.02"]]);
+    // the long setting matters: only there does the last stage reorder replicas, so that a
+    // selection made too early (or a minimum instead of a maximum) shows in the written score
+    let settings: Vec<Vec<&str>> = tier.pick(
+        vec![vec!["--steps", "60", "--inner-steps", "20"], vec!["--steps", "2000", "--kt-finish", "0.001"]],
+        vec![vec!["--steps", "60", "--inner-steps", "20"], vec!["--steps", "2000", "--kt-finish", "0.001"], vec!["--steps", "150", "--inner-steps", "50", "--kt-finish", "0.001", "--max-step-size", "0.02"], vec!["--steps", "1000", "--inner-steps", "100", "--kt-start", "0.5", "--kt-finish", "0.0005"]],
+    );
     let mut cases: Vec<C10Case> = vec![];
     for g in groups.iter() {
         for pot in ["Hard", "LJ"].iter() {
@@ -51,7 +56,7 @@ pub fn c10(tier: Tier) -> ! {
             ];
             for (sa, spec) in shapes {
                 for (si, set) in settings.iter().enumerate() {
-                    if si > 0 && sa[0] == "polygon" && sa[2] != "4" {
+                    if si > 0 && ((sa[0] == "polygon" && sa[2] == "6") || sa[0] == "circle" || sa.len() > 3 && sa[0] == "trimer") {
                         continue;
                     }
                     cases.push(C10Case { group: g, shape_args: sa.iter().map(|s| s.to_string()).collect(), spec: spec.clone(), potential: pot, opt: set.iter().map(|s| s.to_string()).collect(), kmax });
@@ -386,6 +391,22 @@ pub fn svg_judge(st: &AnyState) -> Option<String> {
     None
 }
 
+fn collect_leaf_paths(v: &Value, path: String, out: &mut Vec<String>) {
+    match v {
+        Value::Array(a) => {
+            for (i, x) in a.iter().enumerate() {
+                collect_leaf_paths(x, format!("{}/{}", path, i), out);
+            }
+        }
+        Value::Object(o) => {
+            for (k, x) in o.iter() {
+                collect_leaf_paths(x, format!("{}/{}", path, k), out);
+            }
+        }
+        _ => out.push(path),
+    }
+}
+
 pub fn c11(tier: Tier) -> ! {
     let mut run = Run::new("C11", tier, "exploration");
     let doubles = special_doubles(tier);
@@ -515,6 +536,67 @@ pub fn c11(tier: Tier) -> ! {
     if sfp > 0 {
         run.fail(Some("serde-json-float-parse"), &format!("{} of {} structures do not read back identically", sfp, sn), json!({"count": sfp}));
     }
+    // (v) every field matters: each leaf of the document is given a value no constructor
+    // produces, the document is read, written and read again, and the leaf must still be there
+    let mut leaf_checks = 0u64;
+    let mut leaf_rejected = 0u64;
+    for (g, spec) in [("p2mg", ShapeSpec::Polygon(3)), ("p2", ShapeSpec::Trimer(0.637556, 120., 1.)), ("p2gg", ShapeSpec::LjTrimer(0.637556, 120., 1.)), ("p1", ShapeSpec::LjCircle)].iter() {
+        let p = Params { length: 7.25, ratio: 0.75, angle: if ita_family(g) == "Monoclinic" { 1.375 } else { PI / 2. }, x: 0.125, y: -0.375, phi: 1.25 };
+        let base = state_json(g, &spec.json(), &p);
+        let mut paths: Vec<String> = vec![];
+        collect_leaf_paths(&base, String::new(), &mut paths);
+        for path in paths.iter() {
+            let mut doc = base.clone();
+            let leaf = doc.pointer_mut(path).unwrap();
+            let newv = match &*leaf {
+                Value::Number(n) if n.is_f64() => {
+                    let old = n.as_f64().unwrap();
+                    let cands = [0.625, 1.375, 2.5];
+                    json!(*cands.iter().find(|c| **c != old).unwrap())
+                }
+                Value::Number(_) => json!(3),
+                Value::String(t) => json!(format!("{}_x", t)),
+                Value::Bool(b) => json!(!*b),
+                Value::Null => json!(2.5),
+                _ => continue,
+            };
+            *leaf = newv.clone();
+            leaf_checks += 1;
+            let st = match AnyState::from_json(&doc) {
+                Ok(s) => s,
+                Err(_) => {
+                    // the field is constrained (an enum tag, a single character): not a loss
+                    leaf_rejected += 1;
+                    continue;
+                }
+            };
+            let case = json!({"engine": "document", "group": g, "shape_label": spec.label(), "leaf": path, "value": newv, "state": doc});
+            let again = st.to_json();
+            if again.pointer(path) != Some(&newv) {
+                run.fail(None, &format!("{} {}: field {} = {} is not written back (reads back as {:?})", g, spec.label(), path, newv, again.pointer(path)), case.clone());
+                continue;
+            }
+            // and through text
+            let text = st.to_string();
+            match serde_json::from_str::<Value>(&text).ok().and_then(|v| AnyState::from_json(&v).ok()) {
+                None => run.fail(None, &format!("{} {}: document with {} = {} does not read back", g, spec.label(), path, newv), case),
+                Some(back) => {
+                    let b = back.to_json();
+                    let got = b.pointer(path);
+                    let same = match (got, &newv) {
+                        (Some(Value::Number(x)), Value::Number(y)) => x.as_f64() == y.as_f64(),
+                        (Some(x), y) => x == y,
+                        _ => false,
+                    };
+                    if !same {
+                        run.fail(None, &format!("{} {}: field {} = {} is lost in the text round trip (reads back as {:?})", g, spec.label(), path, newv, got), case);
+                    }
+                }
+            }
+        }
+    }
+    run.set("leaf_perturbations", leaf_checks);
+    run.set("leaf_perturbations_rejected_by_the_reader", leaf_rejected);
     // (iv) the files the binary writes
     let mut file_checks = 0u64;
     for args in [vec!["--replications", "2", "--steps", "50", "p2mg", "polygon", "--sides", "5"], vec!["--replications", "2", "--steps", "50", "--potential", "LJ", "p2", "trimer"], vec!["--replications", "1", "--steps", "30", "p1g1", "circle"]].iter() {
@@ -555,7 +637,7 @@ pub fn c11(tier: Tier) -> ! {
     run.set("distinct_nontrivial", ok + sok + svgs);
     run.set("special_doubles", doubles.len() as u64);
     run.set("exhaustive", true);
-    run.set("rule", "(i) doubles: sign x every 8th (quick) / every (thorough) binary exponent x 7 mantissa patterns, subnormals, k/10, k/3, k degrees, 1/k - each placed in each of the six parameter slots of 4 states (hard polygon, hard trimer, LJ trimer, LJ circle) where it is finite and admissible; (ii) structures: constructor-built, optimised (3 real hill climbs) and awkward-number lattice states for 7 groups x 11 shapes; each: to_string -> from_str -> identical re-serialisation, bit-identical score and placements; differences are classified leaf by leaf, and only doubles whose bare serde_json round trip fails are attributed to the known dependency finding; (iii) the SVG of every structure: all <use> matrices parsed with a correctly rounded parser and compared as a multiset with the Cartesian transforms of the copies and their 8 nearest images, and the 9 cell outlines with the lattice translates; (iv) files written by the binary. Non-trivial = exact round trips plus SVG documents compared");
+    run.set("rule", "(i) doubles: sign x every 8th (quick) / every (thorough) binary exponent x 7 mantissa patterns, subnormals, k/10, k/3, k degrees, 1/k - each placed in each of the six parameter slots of 4 states (hard polygon, hard trimer, LJ trimer, LJ circle) where it is finite and admissible; (ii) structures: constructor-built, optimised (3 real hill climbs) and awkward-number lattice states for 7 groups x 11 shapes; each: to_string -> from_str -> identical re-serialisation, bit-identical score and placements; differences are classified leaf by leaf, and only doubles whose bare serde_json round trip fails are attributed to the known dependency finding; (iii) the SVG of every structure: all <use> matrices parsed with a correctly rounded parser and compared as a multiset with the Cartesian transforms of the copies and their 8 nearest images, and the 9 cell outlines with the lattice translates; (iv) files written by the binary; (v) leaf perturbation: every scalar leaf of 4 documents is set to a value no constructor produces and must survive read -> write -> read. Non-trivial = exact round trips plus SVG documents compared");
     run.sample(json!({"slot": "x", "value": f64_bits_json(0.38813333333333333), "state": "p2 polygon4"}));
     run.require(ok > 100 && svgs > 50, "too few exact round trips / SVG documents");
     run.finish()
